@@ -104,6 +104,7 @@ def run(ctx):
         for (t, bp, e) in fl:
             if 'planes_to_read' in t.params and 'geom' in t.params:
                 CAP.check_plane_reader(ctx, 'C04.4', t)
+                CAP.check_reduced_reader(ctx, 'C04.4', pr.func, t, e)
     ctx.floor('C04.4', 8)
     file_header(ctx)
     check_pairing(ctx, 'C04.6')
